@@ -363,6 +363,29 @@ def handleLine (st : State) (line : String) : State × String :=
         (match unhexField res with | some v => !urlOk p v | none => true)
       (st, verdict (m == res) m (if bad then ["C03"] else []) [])
     | _, _ => (st, "bad-vurl")
+  | ["rc", n, k, sets, res, calls] =>
+    -- css.recursiveCheck through the hook, with counting handler functions: verdict and number of
+    -- handler invocations against the model; the invocations must stay within len(funcs)·n(n+1)/2
+    match n.toNat?, k.toNat? with
+    | some n, some k =>
+      let toks : List Bytes := (List.range n).map fun i => strBytes ("t" ++ toString i)
+      let parseSet (s : String) : List (Nat × Nat) :=
+        if s == "-" then [] else (s.splitOn ",").filterMap fun e =>
+          match e.splitOn ":" with
+          | [a, b] => match a.toNat?, b.toNat? with
+            | some a, some b => some (a, b)
+            | _, _ => none
+          | _ => none
+      let fs : List (Bytes → Bool) := ((sets.splitOn ";").take k).map fun s =>
+        let groups := (parseSet s).map fun (a, l) => joinBytes [32] ((toks.drop a).take l)
+        fun g => groups.contains g
+      let m := Golite.recursiveCheck fs toks
+      let ms := (if m.1 then "1" else "0") ++ "/" ++ toString m.2
+      let over := match calls.toNat? with
+        | some c => decide (2 * c > k * (n * (n + 1)))
+        | none => true
+      (st, verdict (ms == res ++ "/" ++ calls) ms (if over then ["C14"] else []) [])
+    | _, _ => (st, "bad-rc")
   | ["uni", inp, res] =>
     match unhexField inp with
     | some b =>
